@@ -2,7 +2,7 @@ use std::path::PathBuf;
 use vh::driver::{finish, load_replay, CheckCtx, Tier};
 
 fn usage() -> ! {
-    eprintln!("usage: check <Cxx> [quick|thorough] [--seed N] [--replay FILE] [--list]");
+    eprintln!("usage: check <Cxx> [quick|thorough] [--seed N] [--replay FILE] [--fuzz RUNS_PER_JOB] [--list]");
     std::process::exit(2)
 }
 
@@ -30,6 +30,7 @@ fn main() {
         .map(|v| v as u64)
         .unwrap_or(1);
     let mut replay: Option<PathBuf> = None;
+    let mut fuzz_only: Option<u64> = None;
     let mut i = 1;
     while i < args.len() {
         match args[i].as_str() {
@@ -46,6 +47,10 @@ fn main() {
             "--seed" => {
                 i += 1;
                 seed = args.get(i).and_then(|s| s.parse().ok()).unwrap_or_else(|| usage());
+            }
+            "--fuzz" => {
+                i += 1;
+                fuzz_only = Some(args.get(i).and_then(|s| s.parse().ok()).unwrap_or_else(|| usage()));
             }
             "--replay" => {
                 i += 1;
@@ -78,6 +83,29 @@ fn main() {
         }
     }
     let ctx = CheckCtx::new(&prop, tier, seed, false);
+    if let Some(runs) = fuzz_only {
+        // development aid: only the libFuzzer campaign of this property (evidence is not written)
+        let Some(f) = entry.fuzz else {
+            eprintln!("property {prop} has no fuzzable sub-check");
+            std::process::exit(2);
+        };
+        let subs = f(&ctx);
+        match vh::fuzz::campaign(&ctx, &subs, runs, 16) {
+            Some(found) => {
+                let path = ctx.write_replay(&found);
+                println!("violation detail: rule={} sig={} sub={} :: {}", found.violation.rule, found.violation.sig, found.sub, found.violation.detail);
+                println!("VIOLATION property={} replay={}", prop, path.display());
+                std::process::exit(1);
+            }
+            None => {
+                println!("fuzz campaign: no violation; {}", ctx.col.sub_json("fuzz"));
+                for m in ctx.infra.lock().unwrap().iter() {
+                    eprintln!("INFRA: {m}");
+                }
+                std::process::exit(0);
+            }
+        }
+    }
     let found = (entry.check)(&ctx);
     let code = finish(&ctx, entry.meta, found);
     std::process::exit(code);
